@@ -195,7 +195,7 @@ def finish(chk: Check, seed: int, started: float, selftest=None, extra=None) -> 
     if os.environ.get("VERIF_VERBOSE") == "1":
         for ob in chk.obs:
             print("   [%s] %s %s %s -- %s" % (ob.status, ob.rule, ob.construct, ob.loc, ob.detail))
-    evdir = os.path.join(VERIF, "evidence")
+    evdir = os.environ.get("VERIF_EVIDENCE_DIR") or os.path.join(VERIF, "evidence")
     os.makedirs(os.path.join(evdir, "replay"), exist_ok=True)
     for ob in knowns:
         print("KNOWN-FINDING: property=%s %s %s: %s" % (pid, ob.rule, ob.construct, ob.detail))
